@@ -48,6 +48,7 @@ namespace pika {
         std::lock_guard l(rhs.mtx_);
         id_ = rhs.id_;
         rhs.id_ = threads::detail::invalid_thread_id;
+        PIKA_VERIF_POST("jn.mvctor", this, reinterpret_cast<std::uint64_t>(static_cast<void const*>(&rhs)), reinterpret_cast<std::uint64_t>(static_cast<void const*>(threads::detail::get_thread_id_data(id_))));
     }
 
     thread& thread::operator=(thread&& rhs) noexcept
@@ -56,6 +57,7 @@ namespace pika {
         std::unique_lock l2(rhs.mtx_);
         if (joinable_locked())
         {
+            PIKA_VERIF_POST("jn.mvterm", this, reinterpret_cast<std::uint64_t>(static_cast<void const*>(&rhs)), 0);
             l2.unlock();
             l.unlock();
             PIKA_THROW_EXCEPTION(
@@ -63,6 +65,7 @@ namespace pika {
         }
         id_ = rhs.id_;
         rhs.id_ = threads::detail::invalid_thread_id;
+        PIKA_VERIF_POST("jn.mvassign", this, reinterpret_cast<std::uint64_t>(static_cast<void const*>(&rhs)), reinterpret_cast<std::uint64_t>(static_cast<void const*>(threads::detail::get_thread_id_data(id_))));
         return *this;
     }
 
@@ -70,6 +73,7 @@ namespace pika {
     {
         if (joinable())
         {
+            PIKA_VERIF_POST("jn.dtorterm", this, threads::detail::verif_self(), 0);
             if (detail::thread_termination_handler)
             {
                 try
@@ -84,6 +88,9 @@ namespace pika {
             }
             else { std::terminate(); }
         }
+#if defined(PIKA_VERIF_HOOKS)
+        else { PIKA_VERIF_POST("jn.dtor", this, threads::detail::verif_self(), 0); }
+#endif
 
         PIKA_ASSERT(id_ == threads::detail::invalid_thread_id);
     }
@@ -93,6 +100,7 @@ namespace pika {
         std::lock_guard l(mtx_);
         std::lock_guard l2(rhs.mtx_);
         std::swap(id_, rhs.id_);
+        PIKA_VERIF_POST("jn.swap", this, reinterpret_cast<std::uint64_t>(static_cast<void const*>(&rhs)), reinterpret_cast<std::uint64_t>(static_cast<void const*>(threads::detail::get_thread_id_data(id_))));
     }
 
     static void run_thread_exit_callbacks()
